@@ -37,8 +37,8 @@ func (r *frun) attribute() (map[uint64]*inoHist, []uint64, string) {
 			cur[f.Ino] = f
 			h, ok := hist[f.Ino]
 			if !ok {
-				if _, pre := r.Pre[f.Name]; pre && r.Pre[f.Name].Ino == f.Ino {
-					continue // decoy
+				if _, pre := r.Pre[f.Name]; pre && r.Pre[f.Name].Ino == f.Ino && !(r.Cfg.PreMode != 0 && f.Name == r.Cfg.FileName) {
+					continue // decoy (the empty file planted under the active file's name is the sink's to write to)
 				}
 				h = &inoHist{Ino: f.Ino, FirstStep: i}
 				hist[f.Ino] = h
@@ -257,6 +257,14 @@ func checkC15(run *rt.Run, r *frun) bool {
 				if !ns || ts <= 0 {
 					return bad("naming", fmt.Sprintf("step %d: the sink created %s; with rotation enabled the active file carries a timestamp", i, f.Name))
 				}
+			}
+		}
+		// a file that was there before the sink's first write and is now the sink's active file: the sink opened it, and
+		// its files carry the configured mode (the library sets the mode of a file that already existed when one is
+		// configured; with none configured it leaves the file as it found it)
+		if k := st.Op.Kind; c.PreMode != 0 && c.Mode != 0 && st.Err == nil && (k == "write" || k == "emptywrite" || k == "reopen") && curActive == c.FileName {
+			if f := st.Snap[curActive]; r.Pre[c.FileName].Ino == f.Ino && f.Mode != wantMode {
+				return bad("mode-existing", fmt.Sprintf("step %d: the active file %s, which existed with mode %o before the sink opened it, has mode %o after a successful %s; configured %o", i, f.Name, c.PreMode, f.Mode, k, wantMode))
 			}
 		}
 		// decoys and the active file are never removed; with MaxFiles=0 nothing is removed
